@@ -4,6 +4,7 @@ package main
 
 import (
 	"fmt"
+	"strings"
 	"go/ast"
 	"go/token"
 	"go/types"
@@ -37,6 +38,12 @@ func (fv *FV) execStmt(st *State, s ast.Stmt, ctl *Ctl, k Kont) {
 			if fv.isPanicCall(call) {
 				for _, a := range call.Args {
 					fv.evalExprLoose(st, a)
+				}
+				for _, u := range fv.fc.Unreachable {
+					if strings.Contains(exprStr(fv, call), u) {
+						fv.note("panic assumed unreachable by contract: " + exprStr(fv, call))
+						return
+					}
 				}
 				fv.assert(st, "panic", tBool(false), call.Pos(), "explicit panic is unreachable: "+exprStr(fv, call))
 				return // path ends
